@@ -30,6 +30,8 @@ type PropCfg struct {
 type Baseline struct {
 	Discharged []string `json:"discharged"`
 	Unproved   []string `json:"unproved"`
+	// ThoroughOnly: obligations that need more than the quick budget; solved and claimed only in the thorough tier
+	ThoroughOnly []string `json:"thorough_only,omitempty"`
 }
 
 type Finding struct {
@@ -181,15 +183,47 @@ func verify(args []string) int {
 	if *tier == "thorough" {
 		timeout = 60
 	}
-	outs := vc.SolveAll(obls, workDir, timeout, 12)
-	// retry policy: an undecided obligation that the baseline claims is retried once with 4x the budget before it is reported
 	var base0 Baseline
 	if bb, err := os.ReadFile(filepath.Join(verifDir, "baseline", *prop+".json")); err == nil {
 		json.Unmarshal(bb, &base0)
 	}
+	// obligations that need more than the quick budget are deferred to the thorough tier (neither solved nor claimed in quick)
+	deferred := map[string]bool{}
+	if *tier != "thorough" {
+		for _, n := range base0.ThoroughOnly {
+			deferred[n] = true
+		}
+	}
+	// obligations recorded as unproved on the unchanged tree are not claimed; outside a rebaseline they are not re-solved
+	notClaimed := map[string]bool{}
+	if !*rebase {
+		for _, n := range base0.Unproved {
+			notClaimed[n] = true
+		}
+	}
+	var toSolve []*vc.Obligation
+	for _, o := range obls {
+		if !deferred[o.Name] && !notClaimed[o.Name] {
+			toSolve = append(toSolve, o)
+		}
+	}
+	outs := vc.SolveAll(toSolve, workDir, timeout, 12)
+	for _, o := range obls {
+		if deferred[o.Name] {
+			outs = append(outs, &vc.Outcome{Obl: o, Status: "deferred-thorough"})
+		} else if notClaimed[o.Name] {
+			outs = append(outs, &vc.Outcome{Obl: o, Status: "not-claimed"})
+		}
+	}
+	// retry policy: an undecided obligation that the baseline claims is retried once with 4x the budget before it is reported
 	claimed := map[string]bool{}
 	for _, n := range base0.Discharged {
 		claimed[n] = true
+	}
+	if *tier == "thorough" {
+		for _, n := range base0.ThoroughOnly {
+			claimed[n] = true
+		}
 	}
 	for i, o := range outs {
 		if o.Status == "unknown" && claimed[o.Obl.Name] {
@@ -211,6 +245,12 @@ func verify(args []string) int {
 	for _, n := range base.Discharged {
 		inDis[n] = true
 	}
+	if *tier == "thorough" {
+		for _, n := range base.ThoroughOnly {
+			inDis[n] = true
+		}
+		base.Discharged = append(append([]string{}, base.Discharged...), base.ThoroughOnly...)
+	}
 	inUnp := map[string]bool{}
 	for _, n := range base.Unproved {
 		inUnp[n] = true
@@ -231,7 +271,7 @@ func verify(args []string) int {
 		switch o.Status {
 		case "discharged", "structural-ok":
 			discharged = append(discharged, o)
-		case "canary-ok", "canary-inconclusive":
+		case "canary-ok", "canary-inconclusive", "deferred-thorough":
 		case "canary-vacuous":
 			canaryBad = append(canaryBad, o.Obl.Name)
 		case "solver-error":
@@ -243,16 +283,44 @@ func verify(args []string) int {
 
 	if *rebase {
 		var nb Baseline
+		oldQuick := map[string]bool{}
+		for _, n := range base0.Discharged {
+			oldQuick[n] = true
+		}
+		oldThorough := map[string]bool{}
+		for _, n := range base0.ThoroughOnly {
+			oldThorough[n] = true
+		}
+		margin := 0.4 * float64(timeout) // quick claims must discharge well under the quick budget
 		for _, o := range discharged {
-			nb.Discharged = append(nb.Discharged, o.Obl.Name)
+			switch {
+			case *tier == "thorough" && oldQuick[o.Obl.Name]:
+				nb.Discharged = append(nb.Discharged, o.Obl.Name)
+			case *tier == "thorough":
+				nb.ThoroughOnly = append(nb.ThoroughOnly, o.Obl.Name)
+			case o.Seconds > margin:
+				nb.ThoroughOnly = append(nb.ThoroughOnly, o.Obl.Name)
+			default:
+				nb.Discharged = append(nb.Discharged, o.Obl.Name)
+			}
+		}
+		for _, o := range outs {
+			if o.Status == "deferred-thorough" {
+				nb.ThoroughOnly = append(nb.ThoroughOnly, o.Obl.Name)
+			}
 		}
 		for _, o := range failed {
 			if isFinding[o.Obl.Name] == nil {
+				if *tier != "thorough" && oldThorough[o.Obl.Name] {
+					nb.ThoroughOnly = append(nb.ThoroughOnly, o.Obl.Name)
+					continue
+				}
 				nb.Unproved = append(nb.Unproved, o.Obl.Name)
 			}
 		}
 		sort.Strings(nb.Discharged)
 		sort.Strings(nb.Unproved)
+		sort.Strings(nb.ThoroughOnly)
 		os.MkdirAll(filepath.Dir(basePath), 0o755)
 		jb, _ := json.MarshalIndent(nb, "", " ")
 		os.WriteFile(basePath, jb, 0o644)
@@ -265,7 +333,7 @@ func verify(args []string) int {
 		for _, n := range nb.Unproved {
 			inUnp[n] = true
 		}
-		fmt.Printf("baseline rewritten: %d discharged, %d unproved (not claimed)\n", len(nb.Discharged), len(nb.Unproved))
+		fmt.Printf("baseline rewritten: %d discharged, %d thorough-only, %d unproved (not claimed)\n", len(nb.Discharged), len(nb.ThoroughOnly), len(nb.Unproved))
 	}
 
 	// classification of failures
